@@ -19,6 +19,16 @@ if rnd >= 3:
             "cog/_shared.py ...) that still break THIS property; (ii) cooperating pairs of edits that are each harmless alone; "
             "(iii) 'equivalent-looking' refactors (reordered conditions, merged branches, cached values, vectorised loops, default-argument "
             "changes) whose difference shows only for a special input class or call history.\n")
+if rnd >= 4:
+    emph = ("\n\nThis is a fourth round: three rounds of changes (listed above) have been tried, in the anchored files and in helper modules, "
+            "including several in the module-level caches of odc/geo/crs.py (transformer cache key, bounded CRS cache, memoised "
+            "units/str/hash) - do NOT touch those caches again.  Read the property text clause by clause and pick clauses, option values "
+            "and input classes that NONE of the listed changes exercised.  Prefer: (i) degenerate but legal inputs (empty, single element, "
+            "zero-size, exactly-on-boundary, NaN/inf, negative or huge values, non-default dtypes, numpy scalar types instead of Python "
+            "numbers, tuples vs lists, generators consumed twice); (ii) rarely used keyword options and their combinations; (iii) order "
+            "dependence (the same operation applied twice, operands swapped, results re-used as inputs); (iv) precision slips (float32 "
+            "intermediate, rounding mode, tolerance applied on the wrong side, integer division of negatives); (v) state that survives "
+            "between calls (mutable default arguments, in-place modification of an argument, attributes set lazily).\n")
 avoid = ""
 if known:
     avoid = ("\n\nThe following changes were already tried by someone else — do NOT repeat them or close variants; look in different functions, "
